@@ -281,9 +281,41 @@ def limit_writers_write_the_value_given(ctx):
     ctx.floor("limit_file_writes", 2, "Fs::writeMemhighAt / writeMemhightmpAt call sites in Senpai")
 
 
+def reclaimable_bytes_key_table(ctx):
+    """'The floor = unreclaimable usage + limit_min_bytes': what Senpai treats as reclaimable is read off the LRU lists of memory.stat -
+    active_file + inactive_file (page cache that can be dropped) and, capped by the swap that is free, active_anon + inactive_anon.  The
+    `file` and `anon` totals of memory.stat are different quantities (shmem / tmpfs pages are counted under `file` but live on the anon
+    lists and need swap): a floor computed from them is too low by the shmem amount whenever swap is not usable."""
+    from ..inline import known_functions
+    P, cg = ctx.prog, ctx.cg
+    f = ctx.use(ctx.fn1("Oomd::Senpai::getReclaimableBytes"))
+    kn = known_functions()
+    scope_ = [f] + list(P.lambdas_in(f))
+    if kn is not None:
+        for u in cg.reach([f.usr]):
+            h = P.fns[u]
+            if h is not f and h.file.startswith("oomd/") and h.kind != "lambda" and plain(h.d.get("qname", "")) not in kn[0]:
+                scope_.append(h)
+    keys, totals = set(), []
+    for g in scope_:
+        ctx.use(g)
+        for i, nd in enumerate(g.nodes):
+            if nd.get("k") == "lit" and nd.get("lk") == "str" and re.fullmatch(r"(in)?active_(file|anon)|file|anon|shmem|unevictable", str(nd.get("v", ""))):
+                keys.add(nd["v"])
+        for i in g.calls("file_usage", "anon_usage", "shmem_usage", "CgroupContext::file_usage", "CgroupContext::anon_usage", "CgroupContext::shmem_usage"):
+            totals.append("%s at %s" % (g.nodes[i].get("cname"), g.loc(i)))
+    want = {"active_file", "inactive_file", "active_anon", "inactive_anon"}
+    ctx.check(want <= keys and not (keys - want) and not totals, "reclaimable-bytes:key-table", "table agreement (memory.stat keys)", f.loc(),
+              "reclaimable = active_file + inactive_file (+ min(swap free, active_anon + inactive_anon))",
+              "Senpai::getReclaimableBytes reads %s%s of memory.stat - not exactly the four LRU-list entries active_file, inactive_file, active_anon, inactive_anon: "
+              "`file` includes shmem (reclaimable only through swap) and `anon` excludes it, so the floor below which Senpai does not push a cgroup is too low by "
+              "the shmem amount when no swap is usable" % (sorted(keys) or "no LRU key", (" and calls " + ", ".join(totals)) if totals else ""))
+
+
 def run(ctx):
     floor_at_least_memory_min(ctx)
     ceiling_at_most_each_bound(ctx)
+    reclaimable_bytes_key_table(ctx)
     limit_writers_write_the_value_given(ctx)
     configured_paths_resolved_every_time(ctx)
     every_resolved_cgroup_is_returned(ctx, "C18")
